@@ -257,6 +257,65 @@ fn chain_with_bad_leaf_key(pem: &[u8]) -> Vec<u8> {
     v
 }
 
+/// The chain with its leaf re-issued (same names, validity, subject and issuer) for ANOTHER, perfectly valid public key:
+/// `how` = "negated" (EC keys: the point with the same x and the opposite y), "fresh" (a new key of the same kind).
+fn chain_with_other_leaf_key(pki: &Pki, pem: &[u8], how: &str) -> Vec<u8> {
+    let blocks = pem_blocks(pem);
+    let Some(first) = blocks.first() else { return pem.to_vec() };
+    let Ok(leaf) = X509::from_pem(first) else { return pem.to_vec() };
+    let Ok(pk) = leaf.public_key() else { return pem.to_vec() };
+    let newkey: Option<PKey<openssl::pkey::Public>> = match (how, pk.ec_key()) {
+        ("negated", Ok(ec)) => {
+            let g = ec.group();
+            let mut ctx = openssl::bn::BigNumContext::new().unwrap();
+            let mut pt = ec.public_key().to_owned(g).unwrap();
+            pt.invert(g, &ctx).ok();
+            let _ = &mut ctx;
+            EcKey::from_public_key(g, &pt).ok().and_then(|k| PKey::from_ec_key(k).ok())
+        }
+        (_, Ok(ec)) => EcKey::generate(ec.group()).ok().and_then(|k| EcKey::from_public_key(k.group(), k.public_key()).ok()).and_then(|k| PKey::from_ec_key(k).ok()),
+        (_, Err(_)) => match pk.rsa() {
+            Ok(r) => openssl::rsa::Rsa::generate(r.size() * 8).ok().and_then(|k| openssl::rsa::Rsa::from_public_components(k.n().to_owned().unwrap(), k.e().to_owned().unwrap()).ok()).and_then(|k| PKey::from_rsa(k).ok()),
+            Err(_) => None,
+        },
+    };
+    let Some(newkey) = newkey else { return chain_with_bad_leaf_key(pem) };
+    let mut b = X509Builder::new().unwrap();
+    b.set_version(2).unwrap();
+    b.set_serial_number(leaf.serial_number()).unwrap();
+    b.set_subject_name(leaf.subject_name()).unwrap();
+    b.set_issuer_name(leaf.issuer_name()).unwrap();
+    b.set_pubkey(&newkey).unwrap();
+    b.set_not_before(leaf.not_before()).unwrap();
+    b.set_not_after(leaf.not_after()).unwrap();
+    b.append_extension(BasicConstraints::new().critical().build().unwrap()).unwrap();
+    if let Some(names) = leaf.subject_alt_names() {
+        let mut san = SubjectAlternativeName::new();
+        for n in names.iter() {
+            if let Some(d) = n.dnsname() {
+                san.dns(d);
+            } else if let Some(ip) = n.ipaddress() {
+                let txt = match ip.len() {
+                    4 => std::net::Ipv4Addr::new(ip[0], ip[1], ip[2], ip[3]).to_string(),
+                    16 => { let mut a = [0u8; 16]; a.copy_from_slice(ip); std::net::Ipv6Addr::from(a).to_string() }
+                    _ => continue,
+                };
+                san.ip(&txt);
+            }
+        }
+        let ext = san.build(&b.x509v3_context(None, None)).unwrap();
+        b.append_extension(ext).unwrap();
+    }
+    // signed by the key of the certificate that issued the original leaf
+    let signer = pki.inter.iter().find(|(_, c)| c.subject_name().to_der().ok() == leaf.issuer_name().to_der().ok()).map(|(k, _)| k).unwrap_or(&pki.root_key);
+    b.sign(signer, MessageDigest::sha256()).unwrap();
+    let mut v = b.build().to_pem().unwrap();
+    for bl in blocks.iter().skip(1) {
+        v.extend_from_slice(bl);
+    }
+    v
+}
+
 fn cfg_get<'a>(ca: &'a Ca, k: &str) -> Option<&'a Value> {
     ca.cfg.get(k).filter(|v| !v.is_null())
 }
@@ -1426,6 +1485,10 @@ fn handle(g: &mut Global, req: &Request, t_recv: u64) -> Exchange {
                             let lifetime = cfg_cycle_i64(ca, "lifetimes_s", n, 90 * 86400);
                             let skew = cfg_u64(ca, "not_before_skew_s", 60) as i64;
                             let mut pem = pki.issue(&pk, &ca.orders[oi].identifiers, chain_len, lifetime, skew);
+                            // some CAs end the chain they serve with their self-signed root (RFC 8555 7.4.2 allows it)
+                            if cfg_bool(ca, "chain_with_root", false) {
+                                pem.extend(pki.root.to_pem().unwrap());
+                            }
                             // some CAs hand out the very same end-entity certificate again for an unchanged key and identifier set,
                             // with whatever chain they serve that day
                             if cfg_bool(ca, "same_leaf_for_same_key", false) {
@@ -1534,6 +1597,9 @@ fn handle(g: &mut Global, req: &Request, t_recv: u64) -> Exchange {
                     "reversed-chain" => { let mut b = pem_blocks(&r.body); b.reverse(); b.concat() }
                     "rotated-chain" => { let mut b = pem_blocks(&r.body); if b.len() > 1 { let l = b.remove(0); b.push(l); } b.concat() }
                     "leaf-bad-pubkey" => chain_with_bad_leaf_key(&r.body),
+                    // complete, well-formed chains whose leaf holds another valid key: the point opposite to the CSR's, a fresh key
+                    "leaf-negated-point" => chain_with_other_leaf_key(unsafe { &*pki_ptr }, &r.body, "negated"),
+                    "leaf-other-key" => chain_with_other_leaf_key(unsafe { &*pki_ptr }, &r.body, "fresh"),
                     _ => b"-----BEGIN CERTIFICATE-----\nnot base64 at all !!!\n-----END CERTIFICATE-----\n".to_vec(),
                 };
             }
